@@ -65,6 +65,66 @@ def _is_self_attr(e, attr=None):
     return isinstance(e, ast.Attribute) and isinstance(e.value, ast.Name) and e.value.id == 'self' and (attr is None or e.attr == attr)
 
 
+def _strip_doc(body):
+    return [st for st in body if not (isinstance(st, ast.Expr) and isinstance(st.value, ast.Constant) and isinstance(st.value.value, str))]
+
+
+class _Rename(ast.NodeTransformer):
+    def __init__(self, m):
+        self.m = m
+
+    def visit_Name(self, n):
+        return ast.copy_location(ast.Name(id=self.m.get(n.id, n.id), ctx=n.ctx), n)
+
+    def visit_arg(self, n):
+        n.arg = self.m.get(n.arg, n.arg)
+        return n
+
+
+def _canon(stmts, params):
+    """alpha-normal form of a statement list: parameters -> p0, p1, ...; local names (assignment / loop targets, in order of
+    first binding) -> l0, l1, ...; docstrings dropped.  Two bodies that differ only in the spelling of locals / parameters
+    have the same dump."""
+    import copy
+    stmts = copy.deepcopy(_strip_doc(stmts))
+    m = {p: 'p%d' % i for i, p in enumerate(params)}
+    k = [0]
+
+    def bind(t):
+        if isinstance(t, ast.Name):
+            if t.id not in m:
+                m[t.id] = 'l%d' % k[0]
+                k[0] += 1
+        elif isinstance(t, (ast.Tuple, ast.List)):
+            for e in t.elts:
+                bind(e)
+    for st in stmts:
+        for n in ast.walk(st):
+            if isinstance(n, ast.Assign):
+                for t in n.targets:
+                    bind(t)
+            elif isinstance(n, ast.For):
+                bind(n.target)
+    out = [_Rename(m).visit(st) for st in stmts]
+    return '\n'.join(ast.dump(st) for st in out)
+
+
+def _canon_src(src, params):
+    return _canon(ast.parse(src).body, params)
+
+
+class _Subst(ast.NodeTransformer):
+    """parameter -> argument expression (inlining of a private helper)"""
+    def __init__(self, m):
+        self.m = m
+
+    def visit_Name(self, n):
+        if n.id in self.m and isinstance(n.ctx, ast.Load):
+            import copy
+            return copy.deepcopy(self.m[n.id])
+        return n
+
+
 class _Classes:
     def __init__(self, mod):
         self.cls = {}
@@ -113,6 +173,9 @@ class _Formula:
         if isinstance(e, ast.Name):
             if e.id in env:
                 return env[e.id]
+            if e.id in self.tr.module_consts:
+                # module-level numeric constant: its defining expression is inlined
+                return self.expr(self.tr.module_consts[e.id], {})
             raise TranslationError('unknown name %s' % e.id, e)
         if _is_np(e, 'pi'):
             return 'PI'
@@ -128,10 +191,18 @@ class _Formula:
                 raise TranslationError('unsupported operator %s' % type(e.op).__name__, e)
             return '(%s %s %s)' % (self.expr(e.left, env), ops[type(e.op)], self.expr(e.right, env))
         if isinstance(e, ast.Call):
-            if e.keywords:
+            if e.keywords and not (_is_np(e.func, 'full') and all(k.arg == 'dtype' for k in e.keywords)):
                 raise TranslationError('keyword arguments in a formula', e)
             if _is_np(e.func) and e.func.attr in NPFUN and len(e.args) == 1:
                 return '(%s %s)' % (NPFUN[e.func.attr], self.expr(e.args[0], env))
+            if _is_np(e.func, 'square') and len(e.args) == 1:
+                return '(%s ^ 2)' % self.expr(e.args[0], env)
+            if _is_np(e.func, 'full') and len(e.args) == 2 and all(k.arg == 'dtype' for k in e.keywords):
+                # np.full(x.shape, c) = c * np.ones(x.shape): the constant itself (formulas act elementwise)
+                a = e.args[0]
+                if isinstance(a, ast.Attribute) and a.attr == 'shape' and isinstance(a.value, ast.Name) and a.value.id in env:
+                    return self.expr(e.args[1], env)
+                raise TranslationError('np.full of something that is not <argument>.shape', e)
             if _is_np(e.func) and e.func.attr in ('zeros', 'ones') and len(e.args) == 1:
                 a = e.args[0]
                 if isinstance(a, ast.Attribute) and a.attr == 'shape' and isinstance(a.value, ast.Name) and a.value.id in env:
@@ -144,7 +215,11 @@ class _Formula:
         raise TranslationError('unsupported expression %s' % type(e).__name__, e)
 
     def body(self, fn, params):
-        env = {p: p for p in params}
+        return self.body_env(fn, {p: p for p in params})
+
+    def body_env(self, fn, env0):
+        env = dict(env0)
+        params = list(env0)
         lets, ret, cnt = [], None, {}
         for st in fn.body:
             if ret is not None:
@@ -176,6 +251,10 @@ class Translator:
         except SyntaxError as e:
             raise TranslationError('source does not parse: %s' % e)
         self.C = _Classes(self.mod)
+        self.module_consts = {}
+        for st in self.mod.body:
+            if isinstance(st, ast.Assign) and len(st.targets) == 1 and isinstance(st.targets[0], ast.Name):
+                self.module_consts[st.targets[0].id] = st.value
         self.done = {}        # (short, method) -> gen name
         self.out = []         # definitions in dependency order
         self.names = []
@@ -241,49 +320,122 @@ class Translator:
         t = ast.parse(template_src).body[0]
         return ast.dump(node) == ast.dump(t)
 
+    def inline_method_call(self, cname, fn):
+        """a method whose body is `return self.<private helper>(args...)` is replaced by the helper's body with the arguments
+        substituted for the parameters (bound methods `self._x` may be passed as arguments); returns (params, statements)"""
+        import copy
+        params = [x.arg for x in fn.args.args][1:]
+        body = _strip_doc(fn.body)
+        depth = 0
+        while (len(body) == 1 and isinstance(body[0], ast.Return) and isinstance(body[0].value, ast.Call)
+               and _is_self_attr(body[0].value.func) and body[0].value.func.attr.startswith('_') and depth < 3):
+            call = body[0].value
+            try:
+                dc, h = self.C.find(cname, call.func.attr)
+            except TranslationError:
+                break
+            if not isinstance(h, ast.FunctionDef) or h.decorator_list or call.keywords:
+                break
+            hp = [x.arg for x in h.args.args][1:]
+            if h.args.vararg or h.args.kwarg or h.args.kwonlyargs or len(hp) != len(call.args):
+                break
+            hbody = copy.deepcopy(_strip_doc(h.body))
+            # parameters of the helper must not be re-bound inside it unless the argument is the same plain name
+            sub = {}
+            for q, arg in zip(hp, call.args):
+                if not (isinstance(arg, ast.Name) and arg.id == q):
+                    sub[q] = arg
+            rebound = set()
+            for st in hbody:
+                for n in ast.walk(st):
+                    if isinstance(n, ast.Assign):
+                        for t in n.targets:
+                            for m in ast.walk(t):
+                                if isinstance(m, ast.Name):
+                                    rebound.add(m.id)
+            if rebound & set(sub):
+                # re-bound parameter whose argument is another expression: rename is needed -> only plain names are handled
+                if not all(isinstance(sub[q], ast.Name) for q in rebound & set(sub)):
+                    break
+                ren = {q: sub[q].id for q in rebound & set(sub)}
+                hbody = [_Rename(ren).visit(st) for st in hbody]
+                sub = {q: v for q, v in sub.items() if q not in ren}
+            body = [ast.fix_missing_locations(_Subst(sub).visit(st)) for st in hbody]
+            depth += 1
+        return params, body
+
     def wrappers(self):
         dc, ca = self.C.find(BASE, '_createArrays')
-        want = ['gbk = np.atleast_1d(gbk)', 'indices = gbk < self.maxRatio', 'valid_gbk = gbk[indices]',
-                'values = -1*np.ones(gbk.shape, dtype=np.float64)', 'return gbk, valid_gbk, indices, values']
-        body = [s for s in ca.body if not (isinstance(s, ast.Expr) and isinstance(s.value, ast.Constant))]
-        if [x.arg for x in ca.args.args] != ['self', 'gbk'] or len(body) != len(want):
-            raise TranslationError('_createArrays has an unexpected shape', ca)
-        cmpop = None
-        for st, w in zip(body, want):
-            if w.startswith('indices ='):
-                ok = (isinstance(st, ast.Assign) and len(st.targets) == 1 and isinstance(st.targets[0], ast.Name) and st.targets[0].id == 'indices'
-                      and isinstance(st.value, ast.Compare) and len(st.value.ops) == 1 and isinstance(st.value.left, ast.Name)
-                      and st.value.left.id == 'gbk' and _is_self_attr(st.value.comparators[0], 'maxRatio'))
-                if not ok:
-                    raise TranslationError('_createArrays: validity mask is not a comparison of gbk with self.maxRatio', st)
-                cmpop = {ast.Lt: '<', ast.LtE: '<=', ast.Gt: '>', ast.GtE: '>='}.get(type(st.value.ops[0]))
-                if cmpop is None:
-                    raise TranslationError('_createArrays: unsupported comparison', st)
-            elif w.startswith('values ='):
-                v = st.value if isinstance(st, ast.Assign) else None
-                ok = (v is not None and isinstance(v, ast.BinOp) and isinstance(v.op, ast.Mult) and isinstance(v.right, ast.Call)
-                      and _is_np(v.right.func, 'ones'))
-                if not ok:
-                    raise TranslationError('_createArrays: placeholder is not <constant>*np.ones(...)', st)
-                inv = _Formula(self, 'Base', BASE).expr(v.left, {})
-            elif not self._same(st, w):
+        if [x.arg for x in ca.args.args] != ['self', 'gbk'] or ca.decorator_list:
+            raise TranslationError('_createArrays has an unexpected signature', ca)
+        # semantic reading of the mask idiom (names of locals and the spelling of the placeholder are free):
+        #   [g = np.atleast_1d(g)]; m = g <cmp> self.maxRatio; v = g[m]; w = <const> (as an array of g.shape); return g, v, m, w
+        cmpop, inv, mask, valid, values = None, None, None, None, None
+        ret = None
+        for st in _strip_doc(ca.body):
+            if ret is not None:
+                raise TranslationError('_createArrays: statement after return', st)
+            if self._same(st, 'gbk = np.atleast_1d(gbk)'):
+                continue
+            if isinstance(st, ast.Return):
+                ret = st
+                continue
+            if not (isinstance(st, ast.Assign) and len(st.targets) == 1 and isinstance(st.targets[0], ast.Name)):
                 raise TranslationError('_createArrays: unexpected statement', st)
+            name, v = st.targets[0].id, st.value
+            if isinstance(v, ast.Compare) and len(v.ops) == 1:
+                l, r, op = v.left, v.comparators[0], type(v.ops[0])
+                flip = {ast.Lt: ast.Gt, ast.Gt: ast.Lt, ast.LtE: ast.GtE, ast.GtE: ast.LtE}
+                if isinstance(r, ast.Name) and r.id == 'gbk' and _is_self_attr(l, 'maxRatio') and op in flip:
+                    l, r, op = r, l, flip[op]
+                if not (isinstance(l, ast.Name) and l.id == 'gbk' and _is_self_attr(r, 'maxRatio')):
+                    raise TranslationError('_createArrays: validity mask is not a comparison of gbk with self.maxRatio', st)
+                cmpop = {ast.Lt: '<', ast.LtE: '<=', ast.Gt: '>', ast.GtE: '>='}.get(op)
+                if cmpop is None or mask is not None:
+                    raise TranslationError('_createArrays: unsupported comparison', st)
+                mask = name
+            elif (isinstance(v, ast.Subscript) and isinstance(v.value, ast.Name) and v.value.id == 'gbk'
+                  and isinstance(v.slice, ast.Name) and v.slice.id == mask):
+                valid = name
+            else:
+                # placeholder: c * np.ones(gbk.shape[, dtype]) | np.ones(...) * c | -np.ones(...) | np.full(gbk.shape, c[, dtype])
+                def is_shape_call(cl, fname, nargs):
+                    return (isinstance(cl, ast.Call) and _is_np(cl.func, fname) and len(cl.args) == nargs and all(k.arg == 'dtype' for k in cl.keywords)
+                            and isinstance(cl.args[0], ast.Attribute) and cl.args[0].attr == 'shape' and isinstance(cl.args[0].value, ast.Name) and cl.args[0].value.id == 'gbk')
+                F = _Formula(self, 'Base', BASE)
+                if isinstance(v, ast.BinOp) and isinstance(v.op, ast.Mult) and is_shape_call(v.right, 'ones', 1):
+                    inv = F.expr(v.left, {})
+                elif isinstance(v, ast.BinOp) and isinstance(v.op, ast.Mult) and is_shape_call(v.left, 'ones', 1):
+                    inv = F.expr(v.right, {})
+                elif isinstance(v, ast.UnaryOp) and isinstance(v.op, ast.USub) and is_shape_call(v.operand, 'ones', 1):
+                    inv = '(- 1)'
+                elif is_shape_call(v, 'full', 2):
+                    inv = F.expr(v.args[1], {})
+                else:
+                    raise TranslationError('_createArrays: unexpected statement (neither the mask, the valid entries nor a constant placeholder array)', st)
+                if values is not None:
+                    raise TranslationError('_createArrays: two placeholder arrays', st)
+                values = name
+        ok = (ret is not None and isinstance(ret.value, ast.Tuple) and len(ret.value.elts) == 4 and all(isinstance(e, ast.Name) for e in ret.value.elts)
+              and None not in (mask, valid, values) and [e.id for e in ret.value.elts] == ['gbk', valid, mask, values])
+        if not ok:
+            raise TranslationError('_createArrays does not return (gbk, valid entries, mask, placeholder array)', ca)
         self.out.append('(* %s._createArrays: which entries are computed by the formula, and the placeholder of the others *)\n'
                         'Definition createArrays_valid_gen (gbk maxRatio : R) : Prop := gbk %s maxRatio.\n'
                         'Definition invalid_value_gen : R := %s * 1.' % (BASE, cmpop, inv))
         self.names += ['createArrays_valid_gen', 'invalid_value_gen']
         dc, fa = self.C.find(BASE, '_formatArray')
-        fbody = [s for s in fa.body if not (isinstance(s, ast.Expr) and isinstance(s.value, ast.Constant))]
-        ok = (len(fbody) == 2 and self._same(fbody[0], 'if setInvalidToNan:\n    values[~indices] = np.nan') and self._same(fbody[1], 'return np.squeeze(values)'))
-        if not ok:
+        fparams = [x.arg for x in fa.args.args][1:]
+        if len(fparams) != 3 or _canon(fa.body, fparams) != _canon_src('if setInvalidToNan:\n    values[~indices] = np.nan\nreturn np.squeeze(values)', ['values', 'indices', 'setInvalidToNan']):
             raise TranslationError('_formatArray has an unexpected shape', fa)
         for m in FACTORS:
             pub = m.lstrip('_')
             dc, fn = self.C.find(BASE, pub)
-            body = [s for s in fn.body if not (isinstance(s, ast.Expr) and isinstance(s.value, ast.Constant))]
-            want = ['gbk, valid_gbk, indices, values = self._createArrays(gbk)', 'values[indices] = self.%s(valid_gbk)' % m,
-                    'return self._formatArray(values, indices, setInvalidToNan)']
-            if len(body) != 3 or not all(self._same(s, w) for s, w in zip(body, want)):
+            if [x.arg for x in fn.args.args][:2] != ['self', 'gbk'] or len(fn.args.args) != 3:
+                raise TranslationError('public wrapper %s has an unexpected signature' % pub, fn)
+            params, body = self.inline_method_call(BASE, fn)       # a private helper shared by the four wrappers is inlined
+            want = ('gbk, b, c, d = self._createArrays(gbk)\nd[c] = self.%s(b)\nreturn self._formatArray(d, c, setInvalidToNan)' % m)
+            if _canon(body, params) != _canon_src(want, ['gbk', 'setInvalidToNan']):
                 raise TranslationError('public wrapper %s is not the mask idiom around %s' % (pub, m), fn)
 
     # ---- NucleationBarrierParameters -------------------------------------------------------
@@ -291,6 +443,7 @@ class Translator:
         dc, fn = self.C.find('NucleationBarrierParameters', meth)
         params = [x.arg for x in fn.args.args][1:]
         attrs = []
+        s_active = set()
 
         class F(_Formula):
             def expr(s, e, env):
@@ -298,6 +451,24 @@ class Translator:
                     if e.attr not in attrs:
                         attrs.append(e.attr)
                     return e.attr
+                if isinstance(e, ast.Call) and _is_self_attr(e.func) and not e.keywords:
+                    # private helper method of the parameter object (straight-line formula): inlined
+                    hname = e.func.attr
+                    if hname in s_active:
+                        raise TranslationError('recursive helper %s' % hname, e)
+                    dc2, h = self.C.find('NucleationBarrierParameters', hname)
+                    if not isinstance(h, ast.FunctionDef) or h.decorator_list:
+                        raise TranslationError('%s is not a plain method' % hname, e)
+                    hp = [x.arg for x in h.args.args][1:]
+                    if len(hp) != len(e.args) or h.args.vararg or h.args.kwarg or h.args.kwonlyargs:
+                        raise TranslationError('helper %s: unsupported signature / call' % hname, e)
+                    henv = {q: s.expr(a_, env) for q, a_ in zip(hp, e.args)}
+                    s_active.add(hname)
+                    try:
+                        txt = s.body_env(h, henv)
+                    finally:
+                        s_active.discard(hname)
+                    return '(%s)' % txt
                 return _Formula.expr(s, e, env)
         f = F(self, 'NBP', 'NucleationBarrierParameters')
         # first pass collects the attributes in order of first use
@@ -339,23 +510,37 @@ class Translator:
         self.names.append('NBP_validateInputs_gen')
 
     def nbp_cache(self):
+        """the cache structure of NucleationBarrierParameters, read through its PUBLIC properties: the private attribute that
+        backs a property may have any name, as long as the property, its setter and _resetFactors agree on it"""
         cname = 'NucleationBarrierParameters'
         node = self.C.cls[cname][0]
-        # _resetFactors
-        dc, fn = self.C.find(cname, '_resetFactors')
-        cleared = []
-        for st in fn.body:
-            if isinstance(st, ast.Expr) and isinstance(st.value, ast.Constant):
-                continue
-            ok = (isinstance(st, ast.Assign) and len(st.targets) == 1 and _is_self_attr(st.targets[0]) and isinstance(st.value, ast.Constant) and st.value.value is None)
-            if not ok or st.targets[0].attr not in SLOTS:
-                raise TranslationError('_resetFactors: unexpected statement', st)
-            cleared.append(SLOTS[st.targets[0].attr])
-        self.out.append('Definition NBP_reset_clears_gen : list slot := [%s].' % '; '.join(cleared))
-        self.names.append('NBP_reset_clears_gen')
-        # setters
-        setters = {}
-        readers = {}
+        PUB = {'GBk': 'SGBk', 'areaFactor': 'SArea', 'volumeFactor': 'SVol', 'gbRemoval': 'SGbRem', 'areaRemoval': 'SAreaRem'}
+        setters, readers, slot_attr, backing, getters = {}, {}, {}, {}, {}
+
+        def cached_shape(st):
+            """(attr, validation stmt, stored expression) of `if self.A is None: validate; self.A = e` + `return self.A`
+            or of the early-return form `if self.A is not None: return self.A` + validate; store; return"""
+            body = _strip_doc(st.body)
+            def is_none_test(t, neg):
+                return (isinstance(t, ast.Compare) and len(t.ops) == 1 and isinstance(t.ops[0], ast.IsNot if neg else ast.Is) and _is_self_attr(t.left)
+                        and isinstance(t.comparators[0], ast.Constant) and t.comparators[0].value is None)
+            def ret_attr(r):
+                return r.value.attr if isinstance(r, ast.Return) and _is_self_attr(r.value) else None
+            def store_of(x):
+                return (x.targets[0].attr, x.value) if isinstance(x, ast.Assign) and len(x.targets) == 1 and _is_self_attr(x.targets[0]) else (None, None)
+            if len(body) == 2 and isinstance(body[0], ast.If) and not body[0].orelse and is_none_test(body[0].test, False) and len(body[0].body) == 2:
+                attr = body[0].test.left.attr
+                v, store = body[0].body
+                sa, sv = store_of(store)
+                if sa == attr and ret_attr(body[1]) == attr:
+                    return attr, v, sv
+            if (len(body) == 4 and isinstance(body[0], ast.If) and not body[0].orelse and is_none_test(body[0].test, True)
+                    and len(body[0].body) == 1 and ret_attr(body[0].body[0]) == body[0].test.left.attr):
+                attr = body[0].test.left.attr
+                sa, sv = store_of(body[2])
+                if sa == attr and ret_attr(body[3]) == attr:
+                    return attr, body[1], sv
+            return None
         for st in node.body:
             if not isinstance(st, ast.FunctionDef):
                 continue
@@ -364,50 +549,70 @@ class Translator:
                 prop = decs[0].value.id
                 if prop not in ('description', 'gamma', 'gbEnergy'):
                     raise TranslationError('unexpected property setter %s' % prop, st)
-                body = list(st.body)
-                if not (body and self._same(body[0], 'self._%s = value' % prop)):
-                    raise TranslationError('setter of %s does not start with self._%s = value' % (prop, prop), st)
+                body = _strip_doc(st.body)
+                vname = st.args.args[1].arg if len(st.args.args) == 2 else None
+                first = body[0] if body else None
+                ok = (vname is not None and isinstance(first, ast.Assign) and len(first.targets) == 1 and _is_self_attr(first.targets[0])
+                      and isinstance(first.value, ast.Name) and first.value.id == vname)
+                if not ok:
+                    raise TranslationError('setter of %s does not start with self.<attribute> = <value>' % prop, st)
+                backing[prop] = first.targets[0].attr
                 resets = False
                 for s2 in body[1:]:
                     if self._same(s2, 'self._resetFactors()'):
                         resets = True
-                    elif prop == 'description' and self._same(s2, 'for callback in self._updateCallbacks:\n    callback()'):
+                    elif prop == 'description' and _canon([s2], []) == _canon_src('for callback in self._updateCallbacks:\n    callback()', []):
                         pass
                     else:
                         raise TranslationError('setter of %s: unexpected statement' % prop, s2)
                 setters[prop] = resets
-            elif len(decs) == 1 and isinstance(decs[0], ast.Name) and decs[0].id == 'property' and st.name in ('GBk', 'areaFactor', 'volumeFactor', 'gbRemoval', 'areaRemoval'):
-                slot = '_' + st.name if st.name != 'GBk' else '_GBk'
-                body = list(st.body)
-                ok = (len(body) == 2 and isinstance(body[0], ast.If) and not body[0].orelse
-                      and ast.dump(body[0].test) == ast.dump(ast.parse('self.%s is None' % slot).body[0].value)
-                      and self._same(body[1], 'return self.%s' % slot) and len(body[0].body) == 2)
-                if not ok:
-                    raise TranslationError('cached property %s is not `if self.%s is None: validate; store` + return' % (st.name, slot), st)
-                v, store = body[0].body
+            elif len(decs) == 1 and isinstance(decs[0], ast.Name) and decs[0].id == 'property' and st.name in PUB:
+                sh = cached_shape(st)
+                if sh is None:
+                    raise TranslationError('cached property %s is not `if <slot> is None: validate; store` + return' % st.name, st)
+                attr, v, stored = sh
                 if st.name == 'GBk':
-                    ok = self._same(v, 'self._validateInputs()') and self._same(store, 'self._GBk = self.description.gbRatio(self.gbEnergy, self.gamma)')
+                    ok = self._same(v, 'self._validateInputs()') and ast.dump(stored) == ast.dump(ast.parse('self.description.gbRatio(self.gbEnergy, self.gamma)').body[0].value)
                 else:
-                    ok = self._same(v, 'self._validateGBk()') and self._same(store, 'self.%s = self.description.%s(self.GBk, setInvalidToNan=False)' % (slot, st.name))
+                    ok = self._same(v, 'self._validateGBk()') and ast.dump(stored) == ast.dump(ast.parse('self.description.%s(self.GBk, setInvalidToNan=False)' % st.name).body[0].value)
                 if not ok:
                     raise TranslationError('cached property %s: unexpected validation / stored expression' % st.name, st)
-                readers[st.name] = SLOTS[slot]
+                if attr in slot_attr:
+                    raise TranslationError('cache attribute %s backs two properties' % attr, st)
+                slot_attr[attr] = PUB[st.name]
+                readers[st.name] = PUB[st.name]
             elif len(decs) == 1 and isinstance(decs[0], ast.Name) and decs[0].id == 'property' and st.name in ('description', 'gamma', 'gbEnergy'):
-                if not (len(st.body) == 1 and self._same(st.body[0], 'return self._%s' % st.name)):
-                    raise TranslationError('getter of %s is not `return self._%s`' % (st.name, st.name), st)
+                body = _strip_doc(st.body)
+                if not (len(body) == 1 and isinstance(body[0], ast.Return) and _is_self_attr(body[0].value)):
+                    raise TranslationError('getter of %s is not `return self.<attribute>`' % st.name, st)
+                getters[st.name] = body[0].value.attr
         for p in ('description', 'gamma', 'gbEnergy'):
             if p not in setters:
                 raise TranslationError('no setter for %s' % p)
-        if sorted(readers) != sorted(['GBk', 'areaFactor', 'volumeFactor', 'gbRemoval', 'areaRemoval']):
+            if getters.get(p) != backing[p]:
+                raise TranslationError('getter and setter of %s use different attributes (%s / %s)' % (p, getters.get(p), backing[p]))
+        if sorted(readers) != sorted(PUB):
             raise TranslationError('cached properties missing: have %s' % sorted(readers))
+        if set(slot_attr) & set(backing.values()):
+            raise TranslationError('a cache slot shares its attribute with a parameter')
+        # _resetFactors: clears cache slots only
+        dc, fn = self.C.find(cname, '_resetFactors')
+        cleared = []
+        for st in _strip_doc(fn.body):
+            ok = (isinstance(st, ast.Assign) and len(st.targets) == 1 and _is_self_attr(st.targets[0]) and isinstance(st.value, ast.Constant) and st.value.value is None)
+            if not ok or st.targets[0].attr not in slot_attr:
+                raise TranslationError('_resetFactors: statement that is not `<cache slot> = None`', st)
+            cleared.append(slot_attr[st.targets[0].attr])
+        self.out.append('Definition NBP_reset_clears_gen : list slot := [%s].' % '; '.join(sorted(cleared, key=list(PUB.values()).index)))
+        self.names.append('NBP_reset_clears_gen')
         self.out.append('Definition NBP_setter_resets_gen (p : param) : bool :=\n  match p with PDesc => %s | PGamma => %s | PGbE => %s end.'
                         % tuple('true' if setters[p] else 'false' for p in ('description', 'gamma', 'gbEnergy')))
         self.out.append('(* every cached property has the shape: if slot is None: validate; slot = description.<same name>(GBk) *)\n'
                         'Definition NBP_cached_slots_gen : list slot := [%s].' % '; '.join(readers[k] for k in ('GBk', 'areaFactor', 'volumeFactor', 'gbRemoval', 'areaRemoval')))
         self.names += ['NBP_setter_resets_gen', 'NBP_cached_slots_gen']
-        # __init__ must end in a reset / go through the description setter
+        # __init__ must leave every slot empty: it calls _resetFactors (directly or through the description setter that resets)
         dc, init = self.C.find(cname, '__init__')
-        if not any(self._same(s, 'self._resetFactors()') for s in init.body):
+        if not any(self._same(s2, 'self._resetFactors()') for s2 in init.body):
             raise TranslationError('__init__ does not call _resetFactors', init)
 
     def run(self):
